@@ -1,5 +1,6 @@
-(* VM simulation: the hypotheses of vm_correct are satisfiable (a program using every construct), and the
-   "implicit return" hypothesis fn_epilogue_ok is necessary (a program where the machine falls off the code). *)
+(* VM simulation: the hypotheses of vm_correct are satisfiable (a program using every construct), and a regression
+   example for the "implicit return" epilogue (a void function whose code ends in RET but can fall through: before the
+   compiler fix the machine ran off the end of the function). *)
 From Coq Require Import ZArith NArith List Bool Lia.
 From NV Require Import Lang.Ast Lang.Ref Back.VmCompile Back.VmExec Back.VmSimEnv Back.VmSimDefs Back.VmSimMod Back.VmSimFinal.
 Import ListNotations.
@@ -31,7 +32,6 @@ Proof.
   split.
   - unfold source_ok. cbn [pfns pglobals ex_prog]. repeat split.
     + repeat constructor; cbn; repeat split; reflexivity.
-    + repeat constructor; left; reflexivity.
     + repeat constructor; cbn; repeat split; reflexivity.
     + repeat constructor. intros [].
     + unfold VM_MAX_GLOBALS_N. cbn [length map]. lia.
@@ -52,8 +52,9 @@ Proof.
   - vm_compute in E. injection E as <-. vm_compute. reflexivity.
 Qed.
 
-(* the "ensure function always returns" check looks at the last byte only: f1's code ends in RET, no epilogue is
-   added, and when the condition is false the machine runs off the end of the function (the C loop exits with VM_OK) *)
+(* regression: the body of f1 ends in the byte RET and can complete normally.  The compiler used to test only the last
+   byte before adding the "push void; ret" epilogue, and the machine ran off the end of the function (VFellOff);
+   the epilogue is now unconditional and the program is an ordinary instance of vm_correct. *)
 Definition ex_fall : program :=
   {| pglobals := [];
      pfns := [
@@ -62,6 +63,26 @@ Definition ex_fall : program :=
           fbody := SSeq (SExpr (ECall 1 [])) (SSeq (SPrint true (ENum 7)) (SReturn (Some (ENum 0)))) |} ];
      pmain := 0 |}.
 
-Example epilogue_hypothesis_needed : exists M, compile_program ex_fall = Some M /\
-  run_ref 50 ex_fall = Done [55; 10] 0 /\ run_vm 500 M = VFellOff [].
-Proof. eexists. split; [vm_compute; reflexivity|]. split; vm_compute; reflexivity. Qed.
+Example ex_fall_small : small_program ex_fall.
+Proof.
+  split.
+  - unfold source_ok. cbn [pfns pglobals ex_fall]. repeat split.
+    + repeat constructor; cbn; repeat split; reflexivity.
+    + constructor.
+    + constructor.
+    + unfold VM_MAX_GLOBALS_N. cbn [length]. lia.
+  - intros M H. vm_compute in H. injection H as <-. unfold module_small. cbn [m_code m_strings m_fns].
+    repeat split; try (vm_compute; reflexivity); try (intro Hc; discriminate Hc).
+    repeat constructor; cbn [fe_locals]; intro Hc; discriminate Hc.
+Qed.
+
+Example fall_through_returns_void : exists M, compile_program ex_fall = Some M /\
+  run_ref 50 ex_fall = Done [55; 10] 0 /\
+  ((exists fuel', run_vm fuel' M = VDone [55; 10] 0) \/ (exists fuel' o, run_vm fuel' M = VError ECallDepth o)) /\
+  run_vm 500 M = VDone [55; 10] 0.
+Proof.
+  destruct (compile_program ex_fall) as [M|] eqn:E; [|vm_compute in E; discriminate E].
+  exists M. split; [reflexivity|]. split; [vm_compute; reflexivity|]. split.
+  - apply (vm_correct ex_fall M 50); [exact E|exact ex_fall_small|unfold fuel_small; lia|vm_compute; reflexivity].
+  - vm_compute in E. injection E as <-. vm_compute. reflexivity.
+Qed.
